@@ -9,6 +9,9 @@ kind "structural": an obligation discharged by the extractor itself (stated as s
 
 UNITS = {
     "C08": [
+        dict(kind="verus", name="c08_send", template="specs/c05_send.vrs",
+         under_contract=["send_change_chunks"], vacuity=["send_change_chunks"],
+         assumptions=["same template as unit c05_send: the whole send_change_chunks against the chunker's proved contract — what is SENT for a version/partial request tiles the requested range up to last_seq (consecutive ranges, first at the requested start, last ending at last_seq), the only skipped chunk being the empty whole-version one"]),
         dict(kind="verus", name="c08_chunker", template="specs/c08_chunker.vrs",
              under_contract=["ChunkedChanges::new", "ChunkedChanges::set_max_buf_size", "ChunkedChanges::next", "CrsqlSeq::add"],
              drivers=["collect_all"],
@@ -104,8 +107,8 @@ UNITS["C18"] = [
 UNITS["C04"] = [
     dict(kind="depcheck", name="depcheck_c04"),
     dict(kind="verus", name="c04_needs", template="specs/c04_needs.vrs",
-         under_contract=["frag_skip", "frag_full", "frag_missing", "frag_other_haves", "frag_other_seqs_haves"],
-         vacuity=["frag_skip", "frag_full", "frag_missing", "frag_other_haves", "frag_other_seqs_haves"],
+         under_contract=["frag_skip", "frag_full", "frag_missing", "frag_other_haves", "frag_other_seqs_haves", "frag_dedup_full"],
+         vacuity=["frag_skip", "frag_full", "frag_missing", "frag_other_haves", "frag_other_seqs_haves", "frag_dedup_full"],
          assumptions=["fragments of compute_available_needs are wrapped as functions over their free variables (self -> this, `continue` -> return Exit::Continue)",
                       "contracts of RangeInclusiveSet::overlapping, HashMap::{get,entry().or_default()}, cmp::{max,min} on &newtype (lib/*.vrs)",
                       "NOT under contract: the flat_map/collect closure chain that intersects our missing seqs with the peer's held seqs, and the max-end computation"]),
@@ -166,6 +169,11 @@ UNITS["C05"] = [
 ]
 
 UNITS["C03"] = [
+    dict(kind="structural", name="c03_from_conn", check="from_conn", file="crates/klukai-types/src/agent.rs", fn="from_conn", impl="^impl BookedVersions$",
+         trusted=["same check as c02_from_conn: after a restart the partial records (received seq ranges, last_seq) are rebuilt from the columns that hold them, so `is_complete` keeps deciding visibility on the true last_seq"]),
+    dict(kind="verus", name="c03_send", template="specs/c05_send.vrs",
+         under_contract=["send_change_chunks"], vacuity=["send_change_chunks"],
+         assumptions=["same template as unit c05_send: the whole send_change_chunks against the chunker's proved contract — what is SENT for a version/partial request tiles the requested range up to last_seq (consecutive ranges, first at the requested start, last ending at last_seq), the only skipped chunk being the empty whole-version one"]),
     dict(kind="depcheck", name="depcheck_c03"),
     dict(kind="structural", name="c03_sql_scoping", check="sql_actor_scoping", file="crates/klukai-agent/src/agent/util.rs",
          trusted=["heuristic SQL reading: WHERE levels are split at parenthesised sub-SELECTs; only the presence of an actor constraint is checked, not its parameter binding"]),
